@@ -88,8 +88,12 @@ func VH08a_bus() {
 	lab := "C08/bus/" + topoNames[ti]
 	ms := build("bus", ti)
 	var bodies [][]byte
+	emptyFrom := verif.Choice("empty-from", len(ms)+1) - 1 // one member (or none) sends a message with an empty body
 	for i, m := range ms {
 		b := []byte{byte('a' + i), verif.Byte("payload")}
+		if i == emptyFrom {
+			b = []byte{}
+		}
 		bodies = append(bodies, b)
 		verif.Assert(m.sock.Send(b) == nil, lab+"/send-ok")
 		verif.Quiesce()
@@ -124,8 +128,12 @@ func VH08b_star() {
 	lab := "C08/star/" + topoNames[tsel]
 	ms := build("star", tsel)
 	var bodies [][]byte
+	emptyFrom := verif.Choice("empty-from", len(ms)+1) - 1 // one member (or none) sends a message with an empty body
 	for i, m := range ms {
 		b := []byte{byte('a' + i), verif.Byte("payload")}
+		if i == emptyFrom {
+			b = []byte{}
+		}
 		bodies = append(bodies, b)
 		verif.Assert(m.sock.Send(b) == nil, lab+"/send-ok")
 		verif.Quiesce()
@@ -158,7 +166,7 @@ func VH08c_xbus() {
 	side := vt.Listen(sock, "a")
 	pipes := []*vt.Pipe{side.Peer("p0"), side.Peer("p1"), side.Peer("p2")}
 	src := verif.Choice("src", 3)
-	body := verif.Bytes("body", 1+verif.Choice("blen", 2))
+	body := verif.Bytes("body", verif.Choice("blen", 3))
 	pipes[src].Deliver(body)
 	var m *mangos.Message
 	var err error
